@@ -19,6 +19,7 @@ TDone == /\ l = Len(T) + 1 /\ l' = l + 1 /\ tid' = tid /\ UNCHANGED vars /\ Acce
 TNext == TAdd \/ TGet \/ TList \/ TDone
 TSpec == TInit /\ [][TNext]_tvars
 TCmds == [c1 |-> [name |-> "a", aliases |-> <<"x">>], c2 |-> [name |-> "b", aliases |-> <<"x", "y">>],
-          c3 |-> [name |-> "a", aliases |-> <<"y">>], c4 |-> [name |-> "c", aliases |-> <<>>]]
+          c3 |-> [name |-> "a", aliases |-> <<"y">>], c4 |-> [name |-> "c", aliases |-> <<>>],
+           c5 |-> [name |-> "x", aliases |-> <<"b">>]]     \* named like an alias of c1 / c2, with an alias that is the name of c2
 TTokens == {"a", "b", "c", "x", "y", "z"}
 =============================================================================
